@@ -58,6 +58,16 @@ type shared struct {
 	bg                 graph.BiGraph
 	hist               *stats.LinearHist
 	kdes               []*stats.KDE
+	// results of earlier calls that are themselves shared and then used concurrently:
+	// fitted functions, quantile functions, derived graphs
+	loess, loess0 func(float64) float64
+	poly          fit.PolynomialRegressionResult
+	invT, invK    func(float64) float64
+	vecF          func([]float64) []float64
+	scc           *graphalg.SCCGraph
+	dom           *graphalg.DomTree
+	simp          graph.Weighted
+	subK, subR    graph.Subgraph
 }
 
 func padF(xs []float64) []float64 {
@@ -106,6 +116,25 @@ func build(in *Inputs) *shared {
 		}
 		s.kdes = append(s.kdes, kd)
 	}
+	lx := make([]float64, len(s.x1))
+	for i := range lx {
+		lx[i] = float64((i*7)%len(lx)) + 0.25*float64(i%3)
+	}
+	s.loess = fit.LOESS(lx, s.x1, 1, 0.9)
+	s.loess0 = fit.LOESS(s.x2, s.x1, 0, 1)
+	s.poly = fit.PolynomialRegression(s.xa, s.x2, nil, 1)
+	s.invT = stats.InvCDF(stats.TDist{V: 4.5})
+	s.invK = stats.InvCDF(s.kdes[1])
+	s.vecF = vec.Vectorize(func(x float64) float64 { return 3*x - 1 })
+	s.scc = graphalg.SCC(s.g, graphalg.SCCEdges)
+	s.dom = graphalg.Dom(graphalg.IDom(s.bg, 0))
+	s.simp = graphalg.SimplifyMulti(s.g)
+	var keep []int
+	for v := len(s.adj) - 1; v >= 0; v -= 2 {
+		keep = append(keep, v)
+	}
+	s.subK = graph.SubgraphKeep(s.g, keep, nil)
+	s.subR = graph.SubgraphRemove(s.g, []int{0}, nil)
 	return s
 }
 
@@ -420,6 +449,42 @@ func registry() []entry {
 		}
 		return fmt.Sprint(idom, df) + b.String()
 	})
+	// ---- shared results of earlier calls, used (possibly concurrently) by many callers
+	add("shared fitted functions", func(s *shared) string {
+		var b strings.Builder
+		for _, x := range probes {
+			b.WriteString(fb(s.loess(x)) + fb(s.loess0(x)) + fb(s.poly.F(x)))
+		}
+		return b.String() + s.poly.String()
+	})
+	add("shared quantile functions", func(s *shared) string {
+		var b strings.Builder
+		for _, p := range []float64{0.02, 0.3, 0.5, 0.77, 0.99} {
+			b.WriteString(fb(s.invT(p)) + fb(s.invK(p)))
+		}
+		return b.String() + fs(s.vecF(s.x1))
+	})
+	add("shared derived graphs", func(s *shared) string {
+		var b strings.Builder
+		for i := 0; i < s.scc.NumNodes(); i++ {
+			fmt.Fprint(&b, s.scc.Subnodes(i), s.scc.Out(i))
+		}
+		for i := 0; i < s.dom.NumNodes(); i++ {
+			fmt.Fprint(&b, s.dom.Out(i), s.dom.IDom(i))
+		}
+		for i := 0; i < s.simp.NumNodes(); i++ {
+			fmt.Fprint(&b, s.simp.Out(i))
+		}
+		nm := s.subK.NodeMap(func(n int) interface{} { return n })
+		for i := 0; i < s.subK.NumNodes(); i++ {
+			fmt.Fprint(&b, s.subK.Out(i), nm(i))
+		}
+		for i := 0; i < s.subR.NumNodes(); i++ {
+			fmt.Fprint(&b, s.subR.Out(i))
+		}
+		fmt.Fprint(&b, graphalg.PreOrder(s.dom, 0), graph.Equal(s.simp, s.simp), graphalg.PostOrder(s.subR, 0))
+		return b.String()
+	})
 	add("graphout.Dot", func(s *shared) string {
 		return graphout.Dot{Name: "g\"1", Label: func(n int) string { return fmt.Sprintf("n{%d}", n) }}.Sprint(s.g)
 	})
@@ -480,7 +545,11 @@ var checkPure = ev.Register("purity-determinism-races", func(in *Inputs) ev.Outc
 					}
 				}()
 				for k := range reg {
-					i := (k*(2*gi+1) + gi*5) % len(reg)
+					// each goroutine walks the registry in its own order: a rotation, reversed for odd ones
+					i := (k + gi*5) % len(reg)
+					if gi%2 == 1 {
+						i = len(reg) - 1 - i
+					}
 					results[gi][i] = reg[i].call(s)
 				}
 			}(gi)
@@ -560,7 +629,8 @@ const rule = "A registry of the exported API taking slices, Samples, graphs or d
 	"stats descriptive statistics, Sample methods, Mann-Whitney, the four t-tests, QuantileCI/SampleCI, UDist with a shared tie " +
 	"vector, Normal/T/Binomial/Hypergeometric, generic InvCDF, KDEs with pre-set bandwidth, bandwidth rules, histogram queries; " +
 	"mathx; vec; fit least squares / polynomial / LOESS; scale maps, ticks, Nice on copies, QQ, FindLevel; graph Equal, MakeBiGraph, " +
-	"subgraphs; graphalg orders, Euler, SCC, SimplifyMulti, dominators; graphout.Dot) is run on rapid-generated shared inputs " +
+	"subgraphs; graphalg orders, Euler, SCC, SimplifyMulti, dominators; graphout.Dot; and the shared results of earlier calls: fitted " +
+	"LOESS / polynomial functions, quantile functions returned by InvCDF, SCC graphs, dominator trees, subgraphs) is run on rapid-generated shared inputs " +
 	"that are unsorted and contain ties (graphs: unsorted adjacency lists with duplicates). (1) a bit-for-bit snapshot of every " +
 	"shared slice, including spare capacity filled with a sentinel, must be unchanged after every call; (2) every call repeated " +
 	"in another order must return a bit-identical result; (3) 16 goroutines run the whole registry concurrently in different " +
